@@ -6,7 +6,10 @@ prop("C16",
                 "on this node) the packet walk over the compiled ipsets and filter table accepts exactly what the "
                 "NetworkPolicy API semantics allow (real proof by induction over the rule / peer / pod lists, no "
                 "sampling). The full statement is FALSE for the code: seven deviations (a)-(g) each have a `counter_*` "
-                "theorem and a replay through the real compiler; they are listed as known findings. The model "
+                "theorem and a replay through the real compiler; they are listed as known findings (plus the event-path "
+                "`relabel-stale-membership-until-resync` and `multiport-more-than-15-ports`: a rule with > 15 ports of one "
+                "protocol makes iptables refuse the whole policy batch, nothing is enforced; `counter_multiport`; the "
+                "fragment requires `overLimit = false`). The model "
                 "(`compileSets`/`compileTable`) is compared with the dump of the REAL policy manager on every run, "
                 "and the walk runs on the real dump. A second stream drives UPDATE transitions on a live manager over the "
                 "strict fakes (ipBlock surgery, pod relabel, policies deleted down to zero, one failing ipset create) and "
@@ -34,6 +37,6 @@ prop("C16",
                   "the harness computes them independently and compares the resulting names)",
                   "pod addresses distinct (WFCluster, Appendix E)",
                   "a flow is a NEW connection (the conntrack RELATED,ESTABLISHED rule does not match); built-in chain policy ACCEPT",
-                  "multiport's 15-port limit, named ports, SCTP, endPort, IPv6 and /0 ipBlocks (not storable in hash:net) are outside the modelled fragment"],
+                  "iptables' multiport limit of 15 ports is modelled (Model: checkRefs / overLimit; harness: LimitIPT in front of the fakes); named ports, SCTP, endPort, IPv6 and /0 ipBlocks (not storable in hash:net) are outside the modelled fragment"],
      timeout={"quick": 600, "thorough": 3000},
      )
